@@ -49,6 +49,7 @@ def rules_C03(ctx):
     r_own.rule_U1(ctx, include_panic=False, rule="U1")
     r_layout.rule_layout_agreement(ctx)
     r_layout.rule_null_checks(ctx)
+    r_api.rule_ownership_primitives(ctx)
 
 
 def rules_C04(ctx):
@@ -56,6 +57,7 @@ def rules_C04(ctx):
     # a write into a buffer other handles (threads) can read is a data race: writes require proved uniqueness
     ctx.take_ts(["R-contract.Modifiable", "R-contract.Unique", "R-contract.realloc", "R-contract.set_len"])
     r_api.rule_send_sync(ctx)
+    r_api.rule_atomics_syntactic(ctx)
     r_api.rule_witnesses(ctx)
 
 
@@ -72,6 +74,7 @@ def rules_C02(ctx):
     # the counter-balance rules are necessary conditions of isolation
     ctx.take_ts(["R2", "R3", "P1", "DUP"])
     r_api.rule_api_surface(ctx)
+    r_api.rule_mut_views(ctx)
     r_api.rule_witnesses(ctx)
 
 
